@@ -951,6 +951,7 @@ package ctfe
 //@ loop 1 invariant len(ret) == rangeindex + 1
 //@ ensures [one-oid-per-string-or-an-error] result1 == nil ==> len(result0) == len(oids)
 //@ ensures [non-numeric-arc-is-an-error] at.called && at.res1 != nil ==> result1 != nil
+//@ loop 2 invariant [every-oid-is-built-in-storage-of-its-own-starting-from-an-empty-slice-without-capacity] rangeindex >= 0 || cap(oid) == 0
 
 //@ func newIndirectIssuanceChainService
 //@ props C15 C14
